@@ -1,7 +1,7 @@
 (* C11: the lock discipline of packages rib and server, checked on the table regenerated from the
    source on every run (Generated/LockTable.v), and the generic reason why an acyclic lock order
    excludes lock deadlocks. *)
-From Coq Require Import List String Bool Arith Lia.
+From Coq Require Import List String Ascii Bool Arith Lia.
 From GV.Conc Require Import LockDefs.
 Import ListNotations.
 Open Scope string_scope.
@@ -112,6 +112,49 @@ Definition cyclic_locks (t : list fn_entry) : list string :=
 
 Definition lock_discipline (t : list fn_entry) : bool :=
   match bad_accesses t, cyclic_locks t with [], [] => true | _, _ => false end.
+
+(* ---- no lock is left held when a function returns ----
+   fn_rets (tools/gen_locktable, leak.go): for every function in which a lock is taken, every `return` and the
+   reachable end of its body - and of every function literal inside it - with the locks taken in that body that may
+   still be held there (some path reaches the exit without an unlock) and that no deferred unlock covers.  A lock
+   left held is not noticed at once: the next writer of it blocks for ever, and then every reader behind it. *)
+(* functions that are meant to return holding a lock they took themselves (lock helpers whose caller unlocks),
+   as (function, lock): there is none in rib / server.  An entry here must name its unlocking counterpart. *)
+Definition returns_locked : list (string * string) := [].
+(* FINDING in the tree of /repo (reported; remove the entry once repaired): RIB.copyRIBs read-locks each instance
+   in its loop and, when ygot.DeepCopy fails, returns the error without the RUnlock that ends the loop body.  The
+   entry names one function, one exit and one lock; nothing else is excused. *)
+Definition known_leaks : list (string * string * string) := [("RIB.copyRIBs", "return1 if err != nil", "RIBHolder.mu")].
+Definition leaked_locks (t : list fn_entry) : list (string * string * string) :=   (* function, exit, lock *)
+  flat_map (fun f =>
+              flat_map (fun r =>
+                          flat_map (fun h => if existsb (fun a => (fst a =? fn_name f) && (snd a =? fst h)) returns_locked then []
+                                             else [(fn_name f, fst r, fst h)]) (snd r))
+                       (fn_rets f)) t.
+Definition leak_eqb (a b : string * string * string) : bool :=
+  (fst (fst a) =? fst (fst b)) && (snd (fst a) =? snd (fst b)) && (snd a =? snd b).
+Definition unexpected_leaks (t : list fn_entry) : list (string * string * string) :=
+  filter (fun x => negb (existsb (leak_eqb x) known_leaks)) (leaked_locks t).
+(* the table is complete for this purpose: every function that takes a lock has its exits listed (those of a
+   goroutine / deferred literal "F$go3" are listed under the enclosing declaration F as "lit<j>...") *)
+Fixpoint before_dollar (s : string) : string :=
+  match s with
+  | EmptyString => EmptyString
+  | String c r => if Ascii.eqb c "$"%char then EmptyString else String c (before_dollar r)
+  end.
+Definition exits_missing (t : list fn_entry) : list string :=
+  map fn_name (filter (fun f => match fn_acqs f with
+                                | [] => false
+                                | _ :: _ => match lookup_fn t (before_dollar (fn_name f)) with
+                                            | Some g => match fn_rets g with [] => true | _ => false end
+                                            | None => true
+                                            end
+                                end) t).
+Definition no_lock_leaked (t : list fn_entry) : bool :=
+  match unexpected_leaks t, exits_missing t with [], [] => true | _, _ => false end.
+(* how much was looked at: functions with exits listed, exits *)
+Definition exits_examined (t : list fn_entry) : nat * nat :=
+  (List.length (filter (fun f => match fn_rets f with [] => false | _ => true end) t), List.length (flat_map fn_rets t)).
 
 (* ---- why a ranked (acyclic) lock order excludes a cycle of waiting threads ---- *)
 (* thread i holds the locks holds_ i and waits for waits_ i; every thread waits only for a lock ranked above
